@@ -186,6 +186,18 @@ theorem tie_withAcceptable_sem :
     refine ⟨?_, rfl, rfl⟩
     cases h1 : pre e <;> cases h2 : new e <;> simp [evalBX, List.lookup, h1, h2]
 
+/-- what one `WithAcceptable` option does to the connection in the tree as it is now: the pinned closure (a nil
+argument is installed / later CALLED: finding, `Props.witness_nil_option_violates_orderly_return`) or the one with
+fixes/C14-withacceptable-nil.patch (leading `if acceptable == nil { return }`: `Props.fixed_nil_options_ignored`) -/
+def optionStep : AccFnP → AccFnP → AccFnP :=
+  if withAcceptableNilGuard then withAcceptableFixed else withAcceptablePinned
+
+theorem tie_withAcceptable_nil_guard :
+    (withAcceptableNilGuard = false ∧ optionStep = withAcceptablePinned) ∨
+    (withAcceptableNilGuard = true ∧ optionStep = withAcceptableFixed) := by
+  unfold optionStep
+  cases h : withAcceptableNilGuard <;> simp
+
 /-- the constructors apply the options in order to the connection they return (`for _, opt := range opts
 { opt(conn) }`), after the literal is built -/
 theorem tie_option_loops :
